@@ -59,6 +59,18 @@ Theorem zero_read_raises : forall sys pool r t0 d now tot,
 Proof. exact Timeout_proofs.zero_read_raises. Qed.
 Print Assumptions zero_read_raises.
 
+(* through a CONNECT tunnel the statement is false of the code that exists: the time spent connecting to the proxy is not taken
+   from total - with total = 1/2 and a connect that takes 5 seconds the response wait is 1/2 and nothing is raised (C19-F1) *)
+Theorem tunnel_connect_time_counts_refuted : exists pool d now evs now',
+  t_total pool = Some (1#2) /\ (1#2) <= d /\
+  tunnelled_request None pool ReqDefault true d now = (evs, OOk, now') /\ In (ESetTimeout (Some (1#2))) evs.
+Proof.
+  destruct (mk (RNum (1#2)) RNone RNone) as [p|] eqn:E; [|discriminate E].
+  exists p, 5, 1000. inversion E; subst p. vm_compute. eexists. eexists. split; [reflexivity|]. split; [discriminate|].
+  split; [reflexivity|]. right; right; left; reflexivity.
+Qed.
+Print Assumptions tunnel_connect_time_counts_refuted.
+
 (* invalid values are rejected when the Timeout is built; what is built is valid *)
 Theorem invalid_rejected : forall total connect read,
   ~ raw_ok connect \/ ~ raw_ok read \/ ~ raw_ok total -> mk total connect read = None.
